@@ -557,7 +557,7 @@ func parseSpecFile(path, text, pkg string, trusted bool) (*SpecFile, error) {
 		lines = append(lines, ln{i + 1, s})
 	}
 	// join continuation lines: a line that doesn't start with a keyword continues the previous.
-	topKw := map[string]bool{"func": true, "iface": true, "spec": true, "ghost": true, "axiom": true, "lemma": true, "chaninv": true, "define": true, "zero": true}
+	topKw := map[string]bool{"func": true, "iface": true, "spec": true, "ghost": true, "axiom": true, "lemma": true, "chaninv": true, "define": true, "zero": true, "guarded": true}
 	var joined []ln
 	for _, l := range lines {
 		first := l.s
@@ -782,6 +782,18 @@ func parseSpecFile(path, text, pkg string, trusted bool) (*SpecFile, error) {
 			}
 			m.Expr = e
 			sf.Defs[m.Name] = m
+		case "guarded":
+			// guarded Type.field by mutexField
+			cur = nil
+			f := strings.Fields(rest)
+			if len(f) != 3 || f[1] != "by" {
+				return nil, fmt.Errorf("%s: bad guarded clause", loc)
+			}
+			key := f[0]
+			if pkg != "" && !strings.Contains(key, "/") {
+				key = pkg + "." + key
+			}
+			sf.ChanInvs = append(sf.ChanInvs, &ChanInv{Key: "guarded:" + key, Var: f[2], Pkg: pkg})
 		case "zero":
 			// zero pkg.Type(v): expr   -- holds for a freshly allocated zero value of the type, v = its address
 			cur = nil
